@@ -328,3 +328,143 @@ func extractMsgShapes() {
 	emit("\n/-- message.go: the reference-count operations as read -/\n")
 	emit("def msgShapes : List (String × List String) := [\n  %s\n]\n", strings.Join(rows, ",\n  "))
 }
+
+// shapeLines: the statement list of a function body, one line per statement, nesting shown by '>' ; else branches,
+// switch / select clauses included
+func shapeLines(body *ast.BlockStmt) []string {
+	var st []string
+	var walk func(l []ast.Stmt, depth int)
+	var one func(x ast.Stmt, depth int)
+	one = func(x ast.Stmt, depth int) {
+		pre := strings.Repeat(">", depth)
+		switch y := x.(type) {
+		case *ast.IfStmt:
+			h := "if "
+			if y.Init != nil {
+				h += stmtBrief(y.Init) + "; "
+			}
+			st = append(st, pre+h+exprString(y.Cond))
+			walk(y.Body.List, depth+1)
+			if y.Else != nil {
+				st = append(st, pre+"else")
+				if b, ok := y.Else.(*ast.BlockStmt); ok {
+					walk(b.List, depth+1)
+				} else {
+					one(y.Else, depth+1)
+				}
+			}
+		case *ast.ForStmt:
+			h := "for"
+			if y.Cond != nil {
+				h += " " + exprString(y.Cond)
+			}
+			st = append(st, pre+h)
+			walk(y.Body.List, depth+1)
+		case *ast.RangeStmt:
+			st = append(st, pre+"range "+exprString(y.X))
+			walk(y.Body.List, depth+1)
+		case *ast.BlockStmt:
+			walk(y.List, depth)
+		case *ast.SwitchStmt:
+			h := "switch"
+			if y.Tag != nil {
+				h += " " + exprString(y.Tag)
+			}
+			st = append(st, pre+h)
+			for _, cl := range y.Body.List {
+				cc := cl.(*ast.CaseClause)
+				if cc.List == nil {
+					st = append(st, pre+">default")
+				} else {
+					var es []string
+					for _, e := range cc.List {
+						es = append(es, exprString(e))
+					}
+					st = append(st, pre+">case "+strings.Join(es, ","))
+				}
+				walk(cc.Body, depth+2)
+			}
+		case *ast.SelectStmt:
+			st = append(st, pre+"select")
+			for _, cl := range y.Body.List {
+				cc := cl.(*ast.CommClause)
+				if cc.Comm == nil {
+					st = append(st, pre+">default")
+				} else if sd, ok := cc.Comm.(*ast.SendStmt); ok {
+					st = append(st, pre+">case "+exprString(sd.Chan)+"<-"+exprString(sd.Value))
+				} else {
+					st = append(st, pre+">case "+stmtBrief(cc.Comm))
+				}
+				walk(cc.Body, depth+2)
+			}
+		case *ast.SendStmt:
+			st = append(st, pre+exprString(y.Chan)+"<-"+exprString(y.Value))
+		case *ast.DeclStmt:
+			d := "var"
+			if gd, ok := y.Decl.(*ast.GenDecl); ok {
+				for _, sp := range gd.Specs {
+					if vs, ok := sp.(*ast.ValueSpec); ok {
+						for _, n := range vs.Names {
+							d += " " + n.Name
+						}
+						if vs.Type != nil {
+							d += " " + exprString(vs.Type)
+						}
+						for _, v := range vs.Values {
+							d += "=" + exprString(v)
+						}
+					}
+				}
+			}
+			st = append(st, pre+d)
+		default:
+			st = append(st, pre+stmtBrief(x))
+		}
+	}
+	walk = func(l []ast.Stmt, depth int) {
+		for _, x := range l {
+			one(x, depth)
+		}
+	}
+	walk(body.List, 0)
+	return st
+}
+
+// the byte-level code of the transports: framing and handshake of the stream transports, the WebSocket and inproc
+// Send / Recv — whole statement lists, so that any edit to them re-opens the obligation
+func extractTransportShapes() {
+	rows := []string{}
+	for _, fn := range []struct{ pkg, recv, name string }{
+		{"transport", "conn", "Recv"}, {"transport", "conn", "Send"}, {"transport", "conn", "handshake"},
+		{"transport", "connipc", "Recv"}, {"transport", "connipc", "Send"},
+		{"transport/ws", "wsPipe", "Recv"}, {"transport/ws", "wsPipe", "Send"},
+		{"transport/inproc", "inproc", "Recv"}, {"transport/inproc", "inproc", "Send"},
+		{"internal/core", "pipe", "SendMsg"}, {"internal/core", "pipe", "RecvMsg"},
+	} {
+		p := loadPkg(fn.pkg)
+		fd := p.fn(fn.recv, fn.name)
+		if fd == nil || fd.Body == nil {
+			unrec(fn.pkg+":"+fn.recv+"."+fn.name, "function not found")
+			continue
+		}
+		rows = append(rows, fmt.Sprintf("(%s, %s)", leanStr(fn.pkg+":"+fn.recv+"."+fn.name), leanStrList(shapeLines(fd.Body))))
+	}
+	emit("\n/-- the transports' byte-level code as read: statement lists of framing, handshake, WebSocket and inproc Send / Recv -/\n")
+	emit("def transportShapes : List (String × List String) := [\n  %s\n]\n", strings.Join(rows, ",\n  "))
+}
+
+// macat: the loops that move bytes between the socket and the terminal, and how --file reads its payload
+func extractMacatShapes() {
+	rows := []string{}
+	p := loadPkg("macat")
+	for _, name := range []string{"setSendData", "setSendFile", "recvLoop", "sendLoop", "sendRecvLoop", "replyLoop"} {
+		fd := p.fn("App", name)
+		if fd == nil || fd.Body == nil {
+			unrec("macat:App."+name, "function not found")
+			continue
+		}
+		rows = append(rows, fmt.Sprintf("(%s, %s)", leanStr(name), leanStrList(shapeLines(fd.Body))))
+	}
+	emit("\n/-- macat: payload options and the send / receive / reply loops as read -/\n")
+	emit("def macatShapes : List (String × List String) := [\n  %s\n]\n", strings.Join(rows, ",\n  "))
+}
